@@ -18,6 +18,8 @@ def _attr_role(ctx, cls, v):
     """Constructor parameter a state element stands for."""
     if v.k == 'typeof':
         return _attr_role(ctx, cls, v.a[0])
+    if v.k == 'term' and v.a[0] == 'len' and len(v.a[1]) == 1:
+        return _attr_role(ctx, cls, v.a[1][0])      # len(self._shards) stands for the shard count
     if v.k == 'selfattr':
         attr = v.a[1]
         init = ctx.method(cls, '__init__')
@@ -65,27 +67,51 @@ def p1(ctx):
                 ok, why = False, '__setstate__ does not call __init__'
             else:
                 args, kw = call.d['args'], call.d['kwargs']
-                iparams = init.params
-                if len(args) == 1 and args[0].k == 'star':
-                    # self.__init__(*state): positional, in order
-                    if roles != iparams[:len(roles)]:
-                        ok, why = False, 'state %s is fed positionally into __init__%s' % (roles, tuple(iparams))
-                elif kw and not args:
-                    # state unpacked into names passed by keyword
-                    got = {}
-                    for name, v in kw.items():
-                        if v.k == 'field' and v.a[0].k == 'param':
-                            got[name] = roles[v.a[1]] if v.a[1] < len(roles) else '?'
-                        else:
-                            got[name] = '?'
-                    if any(k != r for k, r in got.items()) or set(got) != set(roles):
-                        ok, why = False, 'state %s is unpacked into keywords %s' % (roles, got)
-                elif len(args) == 1 and args[0].k == 'param' and state.k != 'tuple':
-                    # scalar state -> first positional of a *args constructor
-                    if not (init.vararg and not iparams and roles[0] == 'directory'):
-                        ok, why = False, 'scalar state %s does not match __init__' % roles
+                iparams = list(init.params)
+                scalar = state.k != 'tuple'
+
+                def comp(v):
+                    """Index of the state component a value denotes ('all' = the whole state object)."""
+                    if v.k == 'param' and v.a[0] == 'state':
+                        return 'all'
+                    if v.k in ('field', 'item') and v.a[0].k == 'param' and v.a[0].a[0] == 'state':
+                        i = v.a[1]
+                        if isinstance(i, V) and i.is_const:
+                            i = i.val
+                        return i if isinstance(i, int) else None
+                    return None
+                bound = []      # (constructor parameter, component index)
+                pos = 0
+                for a_ in args:
+                    if a_.k == 'star' and comp(a_.a[0]) == 'all' and not scalar:
+                        for i in range(len(roles)):
+                            bound.append((iparams[pos] if pos < len(iparams) else '*', i))
+                            pos += 1
+                        continue
+                    c_ = comp(a_)
+                    if c_ == 'all' and scalar:
+                        c_ = 0
+                    bound.append((iparams[pos] if pos < len(iparams) else '*', c_))
+                    pos += 1
+                for name, v in kw.items():
+                    c_ = comp(v)
+                    if c_ == 'all' and scalar:
+                        c_ = 0
+                    bound.append((name, c_))
+                used = [c_ for _, c_ in bound]
+                if any(c_ is None or c_ == 'all' or c_ >= len(roles) for c_ in used):
+                    ok, why = False, '__init__ receives something other than the components of the state %s' % roles
+                elif sorted(used) != list(range(len(roles))):
+                    ok, why = False, 'state components %s are not each passed exactly once (%s)' % (roles, bound)
                 else:
-                    ok, why = False, 'unrecognised __setstate__ call shape'
+                    for name, c_ in bound:
+                        want = roles[c_]
+                        if name == '*':
+                            # *args constructor (Index): the first positional is the directory
+                            if not (init.vararg and want == 'directory' and c_ == 0):
+                                ok, why = False, 'state %s does not match __init__(*%s)' % (roles, init.vararg)
+                        elif name != want:
+                            ok, why = False, 'state component %r is passed as constructor parameter %r' % (want, name)
         obs.append(Ob('P1', '%s/state' % cls, ok, '%s: %s -- an unpickled object would reopen with the wrong directory, '
                       'timeout, shard count or disk class' % (cls, why), gs.loc()))
     # Deque.copy passes directory and maxlen
@@ -118,14 +144,6 @@ def p2(ctx):
         sel = [e for e in sql_events(tr, 'select', 'Settings')]
         if sel:
             res['stored-read'] = True
-        if copies and len(updates) >= 2 and sel:
-            base = copies[0].d['recv']
-            first, second = updates[0].d['args'][0], updates[1].d['args'][0]
-            is_default = base.is_const or base.k == 'modconst'
-            stored_first = any(x.k in ('rows', 'dictof') for x in values_in(first))
-            args_second = second.k == 'param' and second.a[0] == '**settings'
-            if is_default and stored_first and args_second and copies[0].seq < updates[0].seq < updates[1].seq:
-                res['layering'] = True
         for e in sql_events(tr, 'insert', 'Settings'):
             # which loop encloses it?  find the last FOR it=1 before the event
             fors = [x for x in tr[:e.seq] if x.kind == 'FOR' and x.d['it'] == 1]
@@ -144,8 +162,16 @@ def p2(ctx):
                     # the mapping whose items are written back
                     for x in values_in(it):
                         if x.k == 'mcall' and x.a[0] == 'items' and isinstance(x.a[1], int):
-                            written.add(tr[x.a[1]].d.get('recv'))
+                            w = tr[x.a[1]].d.get('recv')
+                            written.add(w)
                             written_at.append(fors[-1].seq)
+                            # the written mapping is defaults < stored < arguments, in that override order
+                            srcs, strip = _layers(w, tr, fors[-1].seq)
+                            kinds = [_layer_kind(y) for y in srcs]
+                            if sel and kinds == ['defaults', 'stored', 'arguments']:
+                                res['layering'] = True
+                            if strip:
+                                res['metadata-stripped'] = True
         if p.kind in ('return', 'next'):
             seeded = [e for e in sql_events(tr, 'insert', 'Settings') if e.d['stmt'].conflict in ('ignore', 'replace')
                       and e.d.get('params') and not isinstance(e.d['params'], V)
@@ -184,6 +210,58 @@ def p2(ctx):
                                   'directory that can never be opened again',
     }
     return [Ob('P2', 'Cache.__init__/' + k, v is True, msgs[k], f.loc()) for k, v in res.items()]
+
+
+def _layer_kind(v):
+    if v.is_const and isinstance(v.val, dict) and 'size_limit' in v.val or v.k == 'modconst' and 'SETTINGS' in v.a[1]:
+        return 'defaults'
+    if any(x.k in ('rows', 'dictof') for x in values_in(v)) or (v.k == 'mdict' and not v.a[0]):
+        return 'stored'         # dict(rows of SELECT ... FROM Settings), or {} when the table does not exist yet
+    if v.k == 'param' and v.a[0] == '**settings':
+        return 'arguments'
+    return '?'
+
+
+def _layers(v, tr, upto, depth=0):
+    """Sources a mapping value was merged from, in override order, and whether the counter names were filtered
+    out on the way (dict comprehension with `key not in METADATA`).  Handles X.copy(), dict(X), {**a, **b},
+    a | b, later .update(y) calls on the same object and filtering comprehensions over X.items()."""
+    if depth > 6:
+        return [v], False
+    srcs, strip = None, False
+    if v.k == 'mcall' and v.a[0] == 'copy' and isinstance(v.a[1], int):
+        srcs, strip = _layers(tr[v.a[1]].d['recv'], tr, v.a[1], depth + 1)
+    elif v.k == 'term' and v.a[0] == 'dict' and len(v.a[1]) == 1:
+        srcs, strip = _layers(v.a[1][0], tr, upto, depth + 1)
+    elif v.k == 'merge':
+        srcs = []
+        for x in v.a[0]:
+            s2, st2 = _layers(x, tr, upto, depth + 1)
+            srcs += s2
+            strip = strip or st2
+    elif v.k == 'term' and v.a[0] == 'BitOr' and len(v.a[1]) == 2:
+        a, sa = _layers(v.a[1][0], tr, upto, depth + 1)
+        b, sb = _layers(v.a[1][1], tr, upto, depth + 1)
+        srcs, strip = a + b, sa or sb
+    elif v.k == 'comp' and v.a[0] == 'DictComp':
+        inner = [x for x in values_in(v) if x.k == 'mcall' and x.a[0] == 'items' and isinstance(x.a[1], int)]
+        if inner:
+            ev = tr[inner[0].a[1]]
+            srcs, strip = _layers(ev.d['recv'], tr, ev.seq, depth + 1)
+            # filter `key not in METADATA` (assumed true for the produced elements)
+            for e in tr[ev.seq:upto]:
+                if e.kind == 'TEST' and e.d['truth'] and e.d['val'].k == 'cmp' and e.d['val'].a[0] == ('NotIn',):
+                    l, r = e.d['val'].a[1]
+                    if _is_metadata_iter(r) and inner[0] in values_in(l):
+                        strip = True
+    if srcs is None:
+        return [v], False
+    # updates applied to this very object afterwards
+    for e in tr[:upto]:
+        if e.kind == 'MCALL' and e.d['name'] == 'update' and e.d.get('recv') == v and e.d['args']:
+            s2, st2 = _layers(e.d['args'][0], tr, e.seq, depth + 1)
+            srcs = srcs + s2
+    return srcs, strip
 
 
 def _is_metadata_iter(it):
